@@ -5,8 +5,8 @@ compared with the prediction that spec/TopoEval.tla computed for the same state.
 Observation of a real topology (all through the public API):
   elements    hull of every element (vertex sample of the geometry) -> model key (level, index, half);
               measure and first moments from integrate_elementwise (gauss 2, exact)
-  boundary    topo.boundary sampled with the 'uniform' scheme at 2^L points per direction, so that every
-              point lies strictly inside one facet atom of the model; per point position, normal, w*J
+  boundary    topo.boundary sampled with the 'uniform' scheme at lcm(1..2^L) points per facet piece, so that every point lies strictly inside one facet atom of the model and every atom
+              gets its share of the weights; per point position, normal, w*J
   interfaces  same for topo.interfaces, plus the position on the opposite side and f_index /
               opposite(f_index) of the volume topology (the two adjacent elements)
 The model decides: the set of element keys, measure and moments of each element, the set of boundary facet
@@ -57,6 +57,11 @@ class Ctx:
         self.natoms = tuple(n * self.A for n in shape)
         self.tri = kind in ('triangle', 'mixed')
         self.periodic2 = any(shape[d] == 2 for d in periodic)
+        # points per facet element of the uniform scheme: a multiple of every number of facet atoms that one facet piece can
+        # span, so that every point lies strictly inside one atom and every covered atom gets its share of the weight
+        # (a piece of a trimmed edge can span any number of atoms up to 2^L)
+        self.nuni = math.lcm(*range(1, self.A + 1)) if self.dim > 1 else 1
+        assert self.nuni <= 12, '2-D bases are limited to depth 2'
         nodes = [numpy.arange(n + 1, dtype=float) for n in shape]
         if kind == 'rect':
             self.topo, self.geom = mesh.rectilinear(nodes, periodic=periodic)
@@ -162,7 +167,7 @@ def observe_facets(ctx, ftopo, voltopo=None):
     fn = ctx.function
     if len(ftopo) == 0:
         return {}
-    smp = ftopo.sample('uniform', ctx.A) if ctx.dim > 1 else ftopo.sample('gauss', 1)
+    smp = ftopo.sample('uniform', ctx.nuni) if ctx.dim > 1 else ftopo.sample('gauss', 1)
     J = fn.J(ctx.geom)
     funcs = [ctx.geom, fn.normal(ctx.geom)]
     if voltopo is not None:
@@ -433,9 +438,10 @@ class Replayer:
             self.observe(ctx, topo, comp, preds[k], what, node, k, leaf=(k == len(case['hist'])))
         except Failure as f:
             key = f.key
-            if ctx.periodic2 and key.split(':')[0] in ('boundary', 'interfaces', 'cut'):
-                # an element that neighbours the same element through two edges (two elements in a periodic direction)
-                key = 'periodic2:' + ':'.join(key.split(':')[:2])
+            if ctx.periodic2 and key.split(':')[0] in ('boundary', 'interfaces', 'cut', 'group'):
+                # two elements in a periodic direction: an element neighbours the same element through two edges, and
+                # util.index(connectivity[opposite], element) picks the first of them
+                key = 'periodic2:ambiguous-opposite-edge'
             node['fail'] = (key, f.what, dict(base=case['base'], L=case['L'], hist=case['hist'][:k], detail=f.data))
         return node
 
